@@ -8,7 +8,7 @@ import sys
 from ..env import np, puan, pg, cc, pnd
 from .. import cfgspace
 from ..ast import structure, is_var, walk
-from ..fingerprint import fingerprint, hidden_state, diff, memo_state
+from ..fingerprint import fingerprint, hidden_state, diff, memo_state, memo_changed
 
 ID = "C09"
 RULE = ("Mode H: a world of live objects in ONE process - model A=All(B,Q) with B=Any(a,b) one shared object also under Q=AtMost(1,[c,B]) and "
@@ -170,6 +170,7 @@ def run_path(path):
     w = build_world()
     recs = []
     fp = world_fp(w)
+    memo0 = memo_state(w, canon)
     for j in path:
         name, fn = ops[j]
         nodes = {}
@@ -187,9 +188,12 @@ def run_path(path):
             obs = ("EXC", type(e).__name__, str(e)[:200])
         fp2 = world_fp(w)
         rebound = [(repr(i), old, tuple(map(int, o.bounds.as_tuple()))) for (o, i, old) in nodes.values() if tuple(map(int, o.bounds.as_tuple())) != old]
-        recs.append({"op": j, "obs": obs, "changed": fp2 != fp, "diff": diff(fp, fp2, limit=40) if fp2 != fp else [],
+        memo1 = memo_state(w, canon)
+        stale = memo_changed(memo0, memo1)
+        memo0 = memo1
+        recs.append({"op": j, "obs": obs, "changed": fp2 != fp, "diff": diff(fp, fp2, limit=40) if fp2 != fp else [], "memo_changed": stale,
                      "rebound": rebound, "named": {repr(k_): v_ for k_, v_ in named.items()},
-                     "hidden": (hidden_state(), memo_state(w))})
+                     "hidden": (hidden_state(), tuple(e[:3] for e in memo1))})
         fp = fp2
     return recs, fp
 
@@ -294,9 +298,15 @@ def check_path(path, acc):
     if any(r["hidden"] != recs[0]["hidden"] for r in recs) or len(path) > 1:
         acc.nontriv(tuple(path))
     expandable = True
+    sig = None
     if last["changed"]:
         sig = classify_change(name, last)
         acc.violation(sig, case, {"what": f"{name.split('[')[0]} changed the object it was called on (or another object of the world)", "call": name, "changed_paths": last["diff"][:8]})
+        expandable = False
+    if last["memo_changed"] and sig is None:
+        # (a memo that aliases a node re-bound by a D3 transition changes with it: same defect, already reported above)
+        acc.violation(None, case, {"what": f"{name.split('[')[0]} changed a result that an earlier call had cached on an object (per-instance memo)", "call": name,
+                                   "history": hist, "memo(owner,node,attribute | before | after)": last["memo_changed"][:4]})
         expandable = False
     want = pristine(last["op"])
     if last["obs"] != want:
